@@ -23,7 +23,7 @@ func init() {
 		ID:    "C03",
 		Level: "fault_enumeration",
 		Rule: "seeded overwrite/delete-heavy histories (1..6 keys - or 40..150 keys, which leaves the compaction to the self-heal of the next Load -, 20..350 writes, block 64B..4KiB, threshold 10..60%) interleaved with force/cli compactions (4 entry points), reopen (load self-heal) and planted leftover temp files (4 kinds); " +
-			"the stored state is compared with the model after every compaction entry point, and every crash point (with torn variants) inside every compaction window is materialised, reloaded and appended to; " +
+			"the stored state is compared with the model after every compaction entry point, and every crash point (with torn variants, and after each rename/remove also with every byte that was not fsynced lost) inside every compaction window is materialised, reloaded and appended to; " +
 			"non-trivial = a compaction actually rewrote the file (rename observed); distinct = hash of (history, compaction count, planted kinds) and of each crash image inside a compaction",
 		Gen: genC03,
 		Run: runC03,
@@ -178,6 +178,12 @@ func runC03(t *testing.T, c Case) (res Result) {
 		for j := w[0] + 1; j < w[1]; j++ {
 			if v := s.checkCut(log, j, -1, &res, fpSet, histHash, true); v != nil {
 				return *v
+			}
+			// after a rename or a remove inside the window: the same moment with the data nobody fsynced gone
+			if j > 0 && (log[j-1].Kind == simdisk.OpRename || log[j-1].Kind == simdisk.OpRemove) {
+				if v := s.checkCut(log, j, simdisk.LoseUnsynced, &res, fpSet, histHash, true); v != nil {
+					return *v
+				}
 			}
 			if j < len(log) && log[j].Kind == simdisk.OpWrite {
 				n := len(log[j].Data)
